@@ -461,6 +461,9 @@ class MergeRules(MergeBase):
             mk("s\n  .multiple = True\n  .optional = False\n{\n  b = x\n}\ns\n  .multiple = True\n{\n  b = w\n}\n", ["s { b = y }\ns.b = w\n"]),
             # multiple definitions, optional True drops None
             mk("d = None\n  .type = int\n  .multiple = True\n  .optional = True\n", ["d = 1\nd = None\nd = 2\nd = 1\n"]),
+            # .optional = True drops None instances only: 0, False and the empty string are values
+            mk("d = None\n  .type = int\n  .multiple = True\n  .optional = True\nb = None\n  .type = bool\n  .multiple = True\n  .optional = True\n"
+               "t = None\n  .type = str\n  .multiple = True\n  .optional = True\n", ["d = 0\nd = 3\nb = False\nb = True\nt = \"\"\nt = x\n", "d = 0\nb = no\n"]),
             mk("d = 5\n  .type = int\n  .multiple = True\n", ["d = 1\nd = 5\nd = 2\nd = 1\nd = 3*1\nd = 3\n"]),
             # an earlier invalid value raises although a later valid one would win
             mk("c = x y\n  .type = choice\n", ["c = w\nc = y\n"]),
